@@ -5009,7 +5009,24 @@ def _svd_worker(a, full_matrices, compute_uv, overwrite_a, cutoff, qtotal_LR, in
     if full_matrices:
         new_leg_L = a.legs[0].conj()
         new_leg_R = a.legs[1].conj()
+        # the blocks (qi, qi) below have total charge 0 with these legs:
+        # gauge the new legs such that U and VH have the total charges qtotal_L and qtotal_R
+        if np.any(qtotal_L != 0):
+            charges = chinfo.make_valid(new_leg_L.charges + new_leg_L.qconj * qtotal_L)
+            new_leg_L = LegCharge.from_qind(chinfo, new_leg_L.slices, charges, new_leg_L.qconj)
+        if np.any(qtotal_R != 0):
+            charges = chinfo.make_valid(new_leg_R.charges + new_leg_R.qconj * qtotal_R)
+            new_leg_R = LegCharge.from_qind(chinfo, new_leg_R.slices, charges, new_leg_R.qconj)
         qi_L, qi_R = a._qdata.T
+        # charge sectors without a block in `a`: the unitaries act as identity there
+        for qi in range(a.legs[0].block_number):
+            if qi not in qi_L:
+                qi_L = np.append(qi_L, qi)
+                U_data.append(np.eye(a.legs[0].get_block_sizes()[qi], dtype=a.dtype))
+        for qi in range(a.legs[1].block_number):
+            if qi not in qi_R:
+                qi_R = np.append(qi_R, qi)
+                VH_data.append(np.eye(a.legs[1].get_block_sizes()[qi], dtype=a.dtype))
         U_qdata = np.stack([qi_L, qi_L], axis=1).astype(np.intp)
         VH_qdata = np.stack([qi_R, qi_R], axis=1).astype(np.intp)
     else:
@@ -5033,7 +5050,7 @@ def _svd_worker(a, full_matrices, compute_uv, overwrite_a, cutoff, qtotal_LR, in
     VH._qdata = VH_qdata
     if full_matrices:
         U._qdata_sorted = np.all(qi_L[:-1] < qi_L[1:])
-        VH._qdata_sorted = a._qdata_sorted
+        VH._qdata_sorted = a._qdata_sorted and len(qi_R) == len(a._data)
     else:
         U._qdata_sorted = a._qdata_sorted
         VH._qdata_sorted = a._qdata_sorted
